@@ -18,6 +18,47 @@ META = {
 THEOREMS = [
     "Qentem.Props.C12.get_after_set_key",
     "Qentem.Props.C12.get_other_after_set_key",
+    "Qentem.Props.C12.updKey_isObj",
+    "Qentem.Props.C12.vivify_key",
+    "Qentem.Props.C12.entries_after_new_key",
+    "Qentem.Props.C12.keys_after_existing_key",
+    "Qentem.Props.C12.size_after_key",
+    "Qentem.Props.C12.size_after_key_full",
+    "Qentem.Props.C12.get_after_set_idx",
+    "Qentem.Props.C12.get_other_after_set_idx",
+    "Qentem.Props.C12.size_after_idx",
+    "Qentem.Props.C12.vivify_idx",
+    "Qentem.Props.C12.append_to_array",
+    "Qentem.Props.C12.append_vivifies",
+    "Qentem.Props.C12.append_array",
+    "Qentem.Props.C12.merge_arrays",
+    "Qentem.Props.C12.merge_into_undefined",
+    "Qentem.Props.C12.merge_is_fold",
+    "Qentem.Props.C12.merge_keeps_other",
+    "Qentem.Props.C12.merge_takes_source",
+    "Qentem.Props.C12.merge_keeps_positions",
+    "Qentem.Props.C12.removed_key_not_found",
+    "Qentem.Props.C12.remove_keeps_other",
+    "Qentem.Props.C12.remove_keeps_order",
+    "Qentem.Props.C12.remove_index_array",
+    "Qentem.Props.C12.compress_object",
+    "Qentem.Props.C12.compress_array",
+    "Qentem.Props.C12.copy_object",
+    "Qentem.Props.C12.copy_array",
+    "Qentem.Props.C12.run_frame",
+    "Qentem.Props.C12.move_root",
+    "Qentem.Props.C12.copy_root",
+    "Qentem.Props.C12.number_of_nat",
+    "Qentem.Props.C12.number_of_int",
+    "Qentem.Props.C12.number_of_real",
+    "Qentem.Props.C12.number_of_keywords",
+    "Qentem.Props.C12.bool_of_scalars",
+    "Qentem.Props.C12.slot_is_kth_member",
+    "Qentem.Props.C12.size_is_member_count",
+    "Qentem.Value.step_frame",
+    "Qentem.Value.keysNodup_slotUpd",
+    "Qentem.Value.keysNodup_slotRemove",
+    "Qentem.Value.keysNodup_liveSlots",
 ]
 
 
